@@ -2,6 +2,7 @@
 pub mod clockx;
 pub mod fwdq;
 pub mod http;
+pub mod liveobs;
 pub mod metrics;
 pub mod mstate;
 pub mod procs;
